@@ -120,6 +120,33 @@ theorem offsets_locate_input {bs p} (hp : parsePackage bs = .ok p) :
   · show (metaBytes res1 pad res2 m ++ r).length = _
     rw [o3, metaBytes, List.length_append]
 
+/-- the signature offset in the INPUT bytes: there the signature header's intro begins, followed by its index and store,
+exactly `sigPad` padding bytes (of any value), and the main header -/
+theorem offsets_locate_input_sig {bs p} (hp : parsePackage bs = .ok p) :
+    ∃ res1 pad res2 : Bytes, res1.length = 4 ∧ pad.length = sigPad p.md.signature.dataSize ∧ res2.length = 4
+      ∧ bs.drop (offsets p.md).sig = hdrBytes res1 p.md.signature ++ pad ++ hdrBytes res2 p.md.header ++ p.content
+      ∧ (offsets p.md).hdr - (offsets p.md).sig = (hdrBytes res1 p.md.signature ++ pad).length
+      ∧ (offsets p.md).payload - (offsets p.md).hdr = (hdrBytes res2 p.md.header).length := by
+  simp only [parsePackage, Out.bind_eq_ok] at hp
+  obtain ⟨⟨m, r⟩, h1, hp⟩ := hp
+  simp only [Out.pure_eq, Out.ok.injEq] at hp
+  subst hp
+  obtain ⟨res1, pad, res2, hr1, hpad, hr2, rfl, wf⟩ := parseMetadata_ok h1
+  have hl := writeLead_length wf.lead
+  have hb (res : Bytes) (hr : res.length = 4) (h : Header) (w : HeaderWF h) : (hdrBytes res h).length = h.size := by
+    simp only [hdrBytes, List.length_append, hmagic, be32_length, writeRaws_length, List.length_map, w.nEq, w.dlEq, hr,
+      List.length_cons, List.length_nil, Header.size, ihs, ies]
+    try omega
+  have hs := hb res1 hr1 m.signature wf.sig
+  have hh := hb res2 hr2 m.header wf.hdr
+  have o1 : (offsets m).sig = (writeLead m.lead).length := by simp [offsets, lds, hl]
+  refine ⟨res1, pad, res2, hr1, hpad, hr2, ?_, ?_, ?_⟩
+  · show (metaBytes res1 pad res2 m ++ r).drop _ = _
+    rw [o1, metaBytes, List.append_assoc, List.append_assoc, List.drop_left]
+    simp only [List.append_assoc]
+  · simp only [offsets, lds, List.length_append, hs, hpad]; omega
+  · simp only [offsets, lds, hh]; omega
+
 /-! ### widths (audit a15 / c11): the arithmetic of the CODE, with the widths of its Rust types
 
 `offsets_fit_u64` above is a statement about the model's `Nat` sums. The three expressions below are scraped from
